@@ -512,6 +512,11 @@ func (a *Activation) env(st *State, old *State) *Env {
 
 func (x *Exec) evalFrame(spec *FuncSpec, env *Env) *FrameSpec {
 	fr := &FrameSpec{fields: map[string][]func(string) string{}}
+	// local ghost fields of another package are invisible here (see GhostField.Local)
+	hidden := func(n *types.Named, f string) bool {
+		g := x.ghostField(n, f)
+		return g != nil && g.Local && g.Pkg != funcPkg(x.root)
+	}
 	if !spec.HasMod {
 		return fr
 	}
@@ -525,6 +530,9 @@ func (x *Exec) evalFrame(spec *FuncSpec, env *Env) *FrameSpec {
 			n := namedStruct(obj.T)
 			if n == nil {
 				efail("modifies %s: not a struct pointer", m.Text)
+			}
+			if hidden(n, m.Field) {
+				continue
 			}
 			for _, kr := range x.fieldKeys(n, m.Field) {
 				ref := add(obj.S, kr.off)
@@ -547,6 +555,9 @@ func (x *Exec) evalFrame(spec *FuncSpec, env *Env) *FrameSpec {
 			}
 			mm := m
 			for _, f := range m.Fields {
+				if hidden(n, f) {
+					continue
+				}
 				for _, kr := range x.fieldKeys(n, f) {
 					off := kr.off
 					fr.fields[kr.key] = append(fr.fields[kr.key], func(r string) string {
